@@ -33,8 +33,9 @@ def schedules(c):
     return scheds
 
 
-def run(c, inv=INV, bind=(True, False, False), sched_fn=schedules, mut=mutate, cls=classify, restart=False):
-    gb.exhaustive(c, inv, restart=restart)
+def run(c, inv=INV, bind=(True, False, False), sched_fn=schedules, mut=mutate, cls=classify, restart=False, skip_exhaustive=False):
+    if not skip_exhaustive:
+        gb.exhaustive(c, inv, restart=restart)
     scheds = sched_fn(c)
     if len(scheds) < 10:
         raise Broken("only %d schedules generated" % len(scheds))
